@@ -152,6 +152,16 @@ func runToken(s *kernel.Sim, p params) {
 		tok = refcodec.MakeToken(tw.RawKey, "nosuchkey", tw.Subject, tw.Issuer, now-10, now+3600, "ab")
 	case "no-kid-pool":
 		tok = refcodec.MakeToken(tw.RawKey, "", tw.Subject, tw.Issuer, now-10, now+3600, "ab")
+	case "kid-outside-key-dir", "kid-outside-key-dir-nested":
+		// a key id that is a path: it leads out of the server's key directory to a file whose
+		// content the token's maker knows (a sibling directory whose name begins like the key
+		// directory's). The server holds no such key; the reference's key set is unchanged.
+		kid := "../simkeys.staging/motd"
+		if p.Var == "kid-outside-key-dir-nested" {
+			kid = "simkey/../../simkeys.staging/motd"
+		}
+		tw.Creds["/simkeys.staging/motd"] = hs.Scramble(other)
+		tok = refcodec.MakeToken(other, kid, tw.Subject, tw.Issuer, now-10, now+3600, "ab")
 	case "expires-during":
 		tok = tw.Token(now-10, now+2)
 	case "expires-later":
@@ -381,6 +391,10 @@ func runVerify(s *kernel.Sim, p params) {
 		tok = refcodec.MakeToken(t.Bytes("other-key", 32), tw.KeyID, tw.Subject, tw.Issuer, now-300, now+300, "ab")
 	case "unknown-kid":
 		tok = refcodec.MakeToken(tw.RawKey, "nosuchkey", tw.Subject, tw.Issuer, now-300, now+300, "ab")
+	case "kid-outside-key-dir":
+		ok2 := t.Bytes("other-key", 32)
+		tw.Creds["/simkeys.staging/motd"] = hs.Scramble(ok2)
+		tok = refcodec.MakeToken(ok2, "../simkeys.staging/motd", tw.Subject, tw.Issuer, now-300, now+300, "ab")
 	case "no-exp":
 		// no expiry claim: the token ends when it is older than the maximum age (issued 300 s before that)
 		tok = tw.Token(now-maxAge+300, refcodec.NoExp)
@@ -529,7 +543,7 @@ func gen(g *scen.Gen) {
 		seed++
 		return g.Emit(scen.Case{Seed: seed, Params: scen.Params(p)})
 	}
-	for _, v := range []string{"valid", "other-key", "unknown-kid", "no-kid-pool", "other-subject", "too-old-already", "fresh-enough", "expires-later", "no-exp-too-old", "no-exp-fresh"} {
+	for _, v := range []string{"valid", "other-key", "unknown-kid", "kid-outside-key-dir", "kid-outside-key-dir-nested", "no-kid-pool", "other-subject", "too-old-already", "fresh-enough", "expires-later", "no-exp-too-old", "no-exp-fresh"} {
 		if !emit(params{Kind: "token", Var: v}) {
 			return
 		}
@@ -601,7 +615,7 @@ func gen(g *scen.Gen) {
 	}
 	// standalone verification: same variants x clock positions around exp (+300) and max age (+300)
 	for _, clock := range []int{0, 298, 299, 300, 301, 302, 900} {
-		for _, v := range []string{"valid", "other-key", "unknown-kid", "no-exp"} {
+		for _, v := range []string{"valid", "other-key", "unknown-kid", "kid-outside-key-dir", "no-exp"} {
 			if !emit(params{Kind: "verify", Var: v, Clock: clock}) {
 				return
 			}
